@@ -238,10 +238,16 @@ def units():
             out.append(('C03/SingleObserver.%s@%s' % (meth, 'fired' if fired else 'pending'), unit_observer(meth, fired)))
     for meth in ('when_fired', 'already_fired', 'has_fired'):
         out.append(('C03/SingleObserver.%s@mid_fire' % meth, unit_observer(meth, 'mid')))
+    # attaching the transport must not replace the disconnect observer (or anything else) the constructor made
+    from props import C04
+    out.append(('C03/connectionMade', C04.unit_connection_made()))
     return out
 
 
 def make_models_for(unit_name):
+    if unit_name.endswith('/connectionMade'):
+        from props import C04
+        return C04.make_models()
     return ObserverModels() if 'SingleObserver' in unit_name else K.ControlModels()
 
 
@@ -277,12 +283,14 @@ def run_loss_session(cmds, replies, loss_at, clean, n_post, wd_before, wd_after,
         wds.append(CS.Recorder(d))
     retried = []
     for c, percb in cmds:
-        d = proto.queue_command(c, (lambda l: None) if percb else None)
+        # ('raw:...' = a command submitted as bytes, given here as latin-1 text so that histories stay JSON)
+        cc = c[4:].encode('latin-1') if c.startswith('raw:') else c
+        d = proto.queue_command(cc, (lambda l: None) if percb else None)
         if retry:
             # retry logic: the caller re-submits from inside the errback of the command that was cut off
             def again(f, _c=c):
                 if f.check(tcp.TorDisconnectError):
-                    retried.append((_c, CS.Recorder(proto.queue_command('RETRY-' + _c))))
+                    retried.append((_c, CS.Recorder(proto.queue_command('RETRY-' + _c.encode('ascii', 'replace').decode('ascii')))))
                 return f
             d.addErrback(again)
         recs.append(CS.Recorder(d))
@@ -335,15 +343,54 @@ def run_loss_session(cmds, replies, loss_at, clean, n_post, wd_before, wd_after,
     return viol
 
 
+def run_early_observer(clean, n_cmds):
+    """a disconnect notification requested on the protocol object *before* its transport is attached (the object a factory's
+    buildProtocol() hands out), with the real connectionMade; then n_cmds commands, then the loss"""
+    from twin import control_session as CS
+    from twisted.python.failure import Failure
+    from twisted.internet import error
+    from twisted.test.proto_helpers import StringTransport
+    import txtorcon.torcontrolprotocol as tcp
+    viol = []
+    hist = {'early_observer': True, 'clean': clean, 'n_cmds': n_cmds}
+    proto = tcp.TorControlProtocol()
+    early = CS.Recorder(proto.when_disconnected())
+    proto.makeConnection(StringTransport())
+    later = CS.Recorder(proto.when_disconnected())
+    recs = [CS.Recorder(proto.queue_command('CMD%d' % i)) for i in range(n_cmds)]
+    try:
+        proto.connectionLost(Failure(error.ConnectionDone()) if clean else Failure(error.ConnectionLost()))
+    except Exception as e:
+        viol.append({'key': 'C03:no_exception_from_connectionLost', 'clause': 'no_exception_from_connectionLost', 'what': repr(e), 'history': hist})
+        return viol
+    for nm, r in (('requested before the transport was attached', early), ('requested after it', later)):
+        if len(r.results) != 1:
+            viol.append({'key': 'C03:disconnect_notification_exactly_once', 'clause': 'disconnect_notification_exactly_once',
+                         'what': 'request %s: %r' % (nm, r.results), 'history': hist})
+    for i, r in enumerate(recs):
+        if len(r.results) != 1 or r.results[0][0] != 'err':
+            viol.append({'key': 'C03:every_command_resolved_exactly_once', 'clause': 'every_command_resolved_exactly_once',
+                         'what': 'command %d behind the authentication exchange: %r' % (i, r.results), 'history': hist})
+    return viol
+
+
 def twin(tier, seed):
     import random
     from twin import control_session as CS
     rnd = random.Random(seed)
     violations, evaluations, distinct, samples = [], 0, set(), []
     nsess = 12 if tier == 'quick' else 80
+    for clean in (True, False):
+        for n in (0, 1, 3):
+            violations.extend(run_early_observer(clean, n))
+            evaluations += 1
+            distinct.add(('early', clean, n))
     for s in range(nsess):
         k = rnd.randint(0, 4)
         cmds = [('CMD%d' % i, rnd.random() < 0.3) for i in range(k)]
+        if k and s % 3 == 2:
+            j = rnd.randrange(k)
+            cmds[j] = ('raw:SETCONF ContactInfo=Zo\xeb %d' % j, cmds[j][1])      # bytes with a byte >= 0x80
         reps = [rnd.choice(C01.REPLY_POOL) for _ in range(k)]
         total = sum(len(CS.encode_reply(c, p)) for c, p in reps)
         offsets = range(0, total + 1)
@@ -378,7 +425,11 @@ def replay(unit, name, model):
         if st == 'RECV':
             reps[0] = (250, [('mid', 'a=1'), ('end', 'OK')])
             loss_at = 9
-        if 'errbacks_find_the_lost_state' in name:
+        if 'body_completes_normally' in name or 'fires_this_command_once' in name:
+            cmds = [('CMD0', False), ('raw:SETCONF ContactInfo=Zo\xeb', False), ('CMD2', False)]
+            reps = [(250, [('end', 'OK')]) for _ in cmds]
+            v = run_loss_session(cmds, reps, 0, bool(model.get('clean_close')), 1, 0, 0)
+        elif 'errbacks_find_the_lost_state' in name:
             cmds = [('CMD%d' % i, False) for i in range(max(k, 3))]
             reps = [(250, [('end', 'OK')]) for _ in cmds]
             v = run_loss_session(cmds, reps, 0, bool(model.get('clean_close')), 1, 0, 0, retry=True)
@@ -394,6 +445,10 @@ def replay(unit, name, model):
 
 
 def replay_file(doc):
+    if doc.get('kind') == 'twin' and doc['violation']['history'].get('early_observer'):
+        h = doc['violation']['history']
+        v = run_early_observer(h['clean'], h['n_cmds'])
+        return {'reproduced': bool(v), 'native_violations': v[:3]}
     if doc.get('kind') == 'twin':
         h = doc['violation']['history']
         reps = [(c, [tuple(p) for p in parts]) for c, parts in h['replies']]
